@@ -888,6 +888,8 @@ class FloatSumStream(Stream):
 #               "script": [OP, ...], "deltas": [[n, d], ...]}
 #   OP = {"op": "status", "working": [ids]} | {"op": "request"} | {"op": "data", "id": cid, "b": [V, V, V, V]}
 #      | {"op": "burst", "gap": [n, d], "ops": [OP, ...]}
+#      | {"op": "drift", "id": cid, "k": 0..3, "rel": [n, d], "steps": N}   (bound k of one component moves from v0 to
+#        v0 * (1 + j * rel), j = 1..N, one message every 50 virtual ms, nothing else changing meanwhile)
 # After every OP: SETTLE virtual seconds, then the LATEST streamed SystemBounds is compared with what the
 # manager enforces for the same latest data (and with the model on the snapshot).
 S_SETTLE = 6.0
@@ -922,6 +924,10 @@ def stream_snapshots(case):
             st["req"] = True
         elif k == "data":
             data[op["id"]] = list(op["b"])
+        elif k == "drift":
+            v = list(data[op["id"]])
+            v[op["k"]] = enc(fr(v[op["k"]]) * (1 + op["steps"] * fr(op["rel"])))
+            data[op["id"]] = v
         elif k == "burst":
             for sub in op["ops"]:
                 apply(sub)
@@ -1036,6 +1042,14 @@ def run_stream(case):
                 cur[op["id"]] = list(op["b"])
                 if op.get("now", True):
                     await send_now(op["id"])
+            elif k == "drift":
+                c, v0 = op["id"], list(cur[op["id"]])
+                for step in range(1, op["steps"] + 1):
+                    v = list(v0)
+                    v[op["k"]] = enc(fr(v0[op["k"]]) * (1 + step * fr(op["rel"])))
+                    cur[c] = v
+                    await send_now(c)
+                    await aio.sleep(0.05)
             elif k == "burst":
                 for sub in op["ops"]:
                     await do(sub)
@@ -1215,6 +1229,8 @@ class BoundsStreamStream(Stream):
         for o in sc:
             if o["op"] == "status":
                 w = set(o["working"])
+            if o["op"] == "drift":
+                out.append(f"drift_steps>={10 ** (len(str(o['steps'])) - 1)}")
             if o["op"] == "data":
                 if o["id"] in bset:
                     mates = next(set(g[0]) for g in case["groups"] if o["id"] in g[0])
@@ -1239,10 +1255,12 @@ class BoundsStreamStream(Stream):
             if o["op"] == "burst" and len(o["ops"]) > 1:
                 for j in range(len(o["ops"])):
                     yield {**case, "script": sc[:i] + [{**o, "ops": o["ops"][:j] + o["ops"][j + 1:]}] + sc[i + 1:]}
+            if o["op"] == "drift" and o["steps"] > 10:
+                yield {**case, "script": sc[:i] + [{**o, "steps": o["steps"] // 4}] + sc[i + 1:]}
         if len(case["groups"]) > 1:
             for gi, g in enumerate(case["groups"]):
                 gone = set(g[0]) | set(g[1])
-                keep = lambda o: not (o["op"] == "data" and o["id"] in gone)
+                keep = lambda o: not (o["op"] in ("data", "drift") and o["id"] in gone)
                 yield {**case, "groups": case["groups"][:gi] + case["groups"][gi + 1:],
                        "init": {k: v for k, v in case["init"].items() if int(k) not in gone},
                        "script": [({**o, "ops": [x for x in o["ops"] if keep(x)]} if o["op"] == "burst" else o) for o in sc if keep(o)]}
@@ -1277,6 +1295,12 @@ def gen_stream_case(rng):
             if rng.random() < 0.5:
                 subs.insert(rng.randrange(len(subs) + 1), {"op": "data", "id": rng.choice(comps), "b": gen_bounds(rng, grid)})
             script.append({"op": "burst", "gap": enc(rng.choice([F(1, 100), F(1, 10)])), "ops": subs})
+    if rng.random() < 0.12:
+        # a bound drifting in many steps far below any plausible "noise" tolerance (thermal derating), nothing else changing
+        steps = rng.choice([20, 20, 50, 50, 200, 200, 1000])
+        rel = rng.choice([F(1, 10 ** 7), F(1, 2 * 10 ** 6), F(9, 10 ** 7), F(1, 10 ** 5), F(1, 10 ** 4)]) * rng.choice([1, -1, -1])
+        script.append({"op": "drift", "id": rng.choice(comps if rng.random() < 0.3 else bats), "k": rng.randrange(4),
+                       "rel": enc(rel), "steps": steps})
     return {"groups": groups, "init": init, "script": script,
             "deltas": [enc(rng.choice([F(1, 1000), F(1, 10 ** 6)])), enc(rng.choice([F(1), F(17)]))]}
 
@@ -1290,4 +1314,8 @@ def stream_boundary_cases():
         {"groups": [[[3, 4], [5]]], "init": init, "deltas": [[1, 1000], [1, 1]],
          "script": [S(3), {"op": "request"}, {"op": "data", "id": 4, "b": E(-1900, -170, 170, 1900)},
                     {"op": "data", "id": 5, "b": E(-3000, -20, 20, 3000)}, S(3, 4), S()]},
+        # battery 3 (limiting its pair) derates its inclusion upper bound by < 1 ppm per message, 2000 messages
+        {"groups": [[[3], [4]], [[6], [7]]], "deltas": [[1, 1000], [1, 1]],
+         "init": {"3": E(-790, -10, 10, 790), "4": E(-2000, 0, 0, 2000), "6": E(-3500, -50, 50, 3500), "7": E(-4000, 0, 0, 4000)},
+         "script": [S(3, 6), {"op": "request"}, {"op": "drift", "id": 3, "k": 3, "rel": enc(F(-9, 10 ** 7)), "steps": 2000}]},
     ]
